@@ -101,10 +101,11 @@ def corruption_selftest(sc, trace_file):
     last = json.loads(tr[-1])
     variants = {}
     v = json.loads(tr[-1]); v["o"][0][2] += 1; v["f"][0][1] += 1; variants["duration+1"] = v
-    v = json.loads(tr[-1]); v["o"][0][0] = v["o"][0][0] % 3 + 1; v["f"][0][0] = v["o"][0][0]; variants["level"] = v
-    v = json.loads(tr[-1]); v["o"], v["oid"], v["f"], v["fid"], v["nf"] = [], [], [], [], 0; variants["event-dropped"] = v
+    v = json.loads(tr[-1]); v["o"][0][0] = v["o"][0][0] % 3 + 1; v["f"][0][0] = v["f"][0][2] = v["o"][0][0]; variants["level"] = v
+    v = json.loads(tr[-1]); v["o"], v["oid"], v["f"], v["fid"], v["ftid"], v["nf"] = [], [], [], [], [], 0; variants["event-dropped"] = v
     v = json.loads(tr[-1]); v["o"][0][1] += 1; variants["time+1"] = v
-    v = json.loads(tr[-1]); v["f"], v["fid"], v["nf"] = [], [], 0; variants["not-forwarded"] = v
+    v = json.loads(tr[-1]); v["f"], v["fid"], v["ftid"], v["nf"] = [], [], [], 0; variants["not-forwarded"] = v
+    v = json.loads(tr[-1]); v["o"][0][4] = (v["o"][0][4] + 1) % 4; variants["previous-level"] = v
     d = sc.sub("selftest")
     files = {}
     for name, line in variants.items():
